@@ -796,17 +796,19 @@ def at_frames(rng: random.Random, role: str, n: int):
     for _ in range(n):
         base = rng.choice(AG_COMMANDS if role == 'ag' else HF_RESULTS)
         k, t = at_hostile_text(rng, base)
-        fr = rng.choice(['ok', 'ok', 'ok', 'no-terminator', 'lf-only', 'crlf', 'double', 'split', 'raw-bytes', 'stray-delims'])
+        fr = rng.choice(['ok', 'ok', 'ok', 'no-terminator', 'lf-only', 'crlf', 'double', 'triple', 'split', 'raw-bytes',
+                         'stray-delims'])
         if fr == 'raw-bytes':
             data = rnd(rng, rng.choice([1, 5, 40, 300]))
         elif fr == 'stray-delims':
             data = rng.choice([b'\r', b'\n', b'\r\n', b'\r\n\r\n', b'\r\r', b'\n\r', b'\r\n\r'])
         elif role == 'ag':
             data = {'ok': t + b'\r', 'no-terminator': t, 'lf-only': t + b'\n', 'crlf': t + b'\r\n',
-                    'double': t + b'\r' + t + b'\r', 'split': t[:len(t) // 2]}[fr]
+                    'double': t + b'\r' + t + b'\r', 'triple': (t + b'\r') * 3, 'split': t[:len(t) // 2]}[fr]
         else:
             data = {'ok': b'\r\n' + t + b'\r\n', 'no-terminator': b'\r\n' + t, 'lf-only': b'\n' + t + b'\n',
                     'crlf': t + b'\r\n', 'double': b'\r\n' + t + b'\r\n\r\n' + t + b'\r\n',
+                    'triple': (b'\r\n' + t + b'\r\n') * 3,
                     'split': b'\r\n' + t[:len(t) // 2]}[fr]
         out.append((f'at/{k}/{fr}', base, data))
     return out
